@@ -116,7 +116,7 @@ def describe_obs(o):
     return "accepted and solved" if o.get("solved") else "accepted, solve() returned False without any error (silently unsolved)"
 
 
-NODE_MODE_VARIANTS = ["node a -> 1", "empty graph", "edge t->s", "pure cycle a->b->c->a", "weight_type=str", "k=0", "k=-1",
+NODE_MODE_VARIANTS = ["constraints=[[]]", "node a -> 1", "empty graph", "edge t->s", "pure cycle a->b->c->a", "weight_type=str", "k=0", "k=-1",
                       "k=2.5", "k='2'", "additional_starts=['zz']", "additional_ends=['zz']", "additional_starts=[7]",
                       "additional_ends=[None]"]
 
@@ -307,6 +307,8 @@ def boundary_valid(ctx, suite="C19.boundary_valid"):
                                                                 "length_attr": "length"}))
             cases.append(("mutually unreachable edges, coverage_length 0.5", {ck: [[("s", "b"), ("a", "t")]],
                                                                             "subpath_constraints_coverage_length": 0.5, "length_attr": "length"}))
+        if cls in K.FLOW_DECOMP | K.ERROR:
+            cases.append(("every flow value 0", {"__zero_flow__": True}))
         if cls in K.HAS_K:
             cases.append(("k=1", {"k": 1}))
         if "additional_starts" in sig and cls not in K.FLOW_DECOMP:
@@ -317,6 +319,10 @@ def boundary_valid(ctx, suite="C19.boundary_valid"):
             cases.append(("one ignored edge", {"elements_to_ignore": [("a", "b")]}))
         for name, extra in cases:
             kw = K.base_kwargs(fp, cls)
+            extra = dict(extra)
+            if extra.pop("__zero_flow__", False):
+                for _, _, d in kw["G"].edges(data=True):
+                    d["flow"] = 0
             kw.update(extra)
             inp = {"cls": cls, "variants": [name], "flags": [], "kwargs": K.describe(kw)}
             o = K.observe(fp, cls, kw)
